@@ -44,6 +44,12 @@ def handlePrint (req : List Sx) : Option String :=
     match w.toNat?, Expr.ofSx e with
     | some n, some x => some (encStr (formatExpr x (some n)))
     | _, _ => some "bad-request"
+  | [.atom "fmt-comments", .atom w, e] =>
+    -- the comment pieces of `format_expr`'s output, as shown there, in output order
+    match w.toNat?, Expr.ofSx e with
+    | some n, some x =>
+      some ("(" ++ " ".intercalate ((commentPieces (formatExprP x (some n))).map encStr) ++ ")")
+    | _, _ => some "bad-request"
   | [.atom "fmt-single", e] =>
     match Expr.ofSx e with
     | some x => some (encStr (fmtSingle x))
